@@ -70,8 +70,8 @@ func (r *resolver) lookup(name string) (found bool, depth0 bool) {
 		}
 	}
 	if _, ok := r.in.builtins[name]; ok {
-		// builtins live in the root table of the main program (depth 0 only there)
-		return true, r.sc.root && !r.sc.module
+		// a builtin is visible everywhere and is never a declaration of the current block
+		return true, false
 	}
 	return false, false
 }
